@@ -27,7 +27,11 @@ PROPS = ("prop_ro", "prop_rw", "prop_wo")
 
 
 def actual_name(m, i):
-    return {"public": "member", "private": "_member", "mangled": "_Target__member", "dunder_custom": "__member__",
+    return {"public": ("member", "member_", "member__", "m", "mem_ber")[i % 5],
+            # every shape of "leading underscore" that is not a custom dunder name
+            "private": ("_member", "_member__", "__member", "_m__", "_", "__", "_member_", "___member", "____", "_m")[i % 10],
+            "mangled": "_Target__member",
+            "dunder_custom": ("__member__", "__m__", "__member___", "___member__")[i % 4],
             "dunder_reserved": RESERVED_DEFINABLE[i % len(RESERVED_DEFINABLE)]}[m["name"]]
 
 
@@ -132,6 +136,13 @@ def build_target(m, i, log):
 
 
 def requested_name(nv, name, kind, i, ser):
+    r = _requested_name(nv, name, kind, i, ser)
+    if nv != "exact" and r == name:
+        r = name + "\u200b"        # a variant must never coincide with the member's own name
+    return r
+
+
+def _requested_name(nv, name, kind, i, ser):
     base = name.strip("_") or "member"
     if nv == "exact":
         return name
